@@ -254,6 +254,9 @@ class IRGen:
         if nout >= 2 and self.maybe(0.2):
             outs[-1] = ir.Value(name="")  # trailing empty-named optional output (unused by construction)
             self.features.add("empty_named_output")
+        if nout >= 3 and self.maybe(0.2):
+            outs[1] = ir.Value(name="")  # an omitted optional output in the middle
+            self.features.add("empty_named_middle_output")
         dom = rng.choice(DOMAINS)
         overload = rng.choice(["", "", "ovl"]) if (dom == "custom.domain" and self.ir_version >= 10) else ""
         if overload:
@@ -310,8 +313,9 @@ def uniquify_names(model: ir.Model) -> int:
         if id(v) in done:
             return
         done.add(id(v))
-        if keep_empty and v.name == "" and not v.uses() and not v.is_graph_output():
-            return
+        if keep_empty and not v.name and not v.uses() and not v.is_graph_output() and v.producer() is not None \
+                and not (v.is_graph_input() or v.is_initializer()):
+            return  # an omitted optional output ("" or None) stays unnamed
         if not v.name or v.name in seen:
             while True:
                 counter[0] += 1
